@@ -19,7 +19,8 @@ LEVEL = "exploration"
 def grammar(tier):
     vals = []
     SC = [("int", 2), ("float", 2.5), ("npfloat", np.float64(2.5)), ("npint", np.int64(3)), ("neg", -2.5), ("None", None),
-          ("str", "a"), ("dict", {"a": 1}), ("set", {1.0, 2.0, 3.0}), ("func", len), ("complex", 1 + 2j)]
+          ("str", "a"), ("dict", {"a": 1}), ("set", {1.0, 2.0, 3.0}), ("func", len), ("complex", 1 + 2j),
+          ("nd0f", np.array(1.5)), ("nd0i", np.array(2)), ("nd0squeezed", np.squeeze(np.array([[2.0]])))]
     vals += SC
     base = [0.5, 1.5, 2.5, 3.5, 4.5, 5.5, 6.5]
 
